@@ -47,7 +47,7 @@ static void MIR_NO_RETURN err_func (MIR_error_type_t t, const char *fmt, ...) {
 }
 
 typedef struct {
-  char kind;          /* 'r' 'i' 'u' 'm' '-' ; for dst also 'x' 'y' */
+  char kind;          /* 'r' 'i' 'u' 'm' '-' ; for dst also 'x' 'y' (register x / y) 'X' (memory operand x) */
   unsigned __int128 val; /* pattern (up to 80 bits) */
   char ty[4], form[4];
   int scale;
@@ -57,6 +57,8 @@ typedef struct {
 typedef struct {
   char id[40], opname[24], kinds[4], br[8], pre[12], post[12];
   int prime; /* -1: none; 0..3: an ADDO leaving (signed,unsigned) overflow = (prime&1, prime>>1) goes first */
+  int press;       /* >0: register pressure, see build_case */
+  uint64_t pmask;  /* defined bits of the result, for the comparison of the copies */
   opnd_t dst, x, y;
 } case_t;
 
@@ -72,7 +74,7 @@ static unsigned __int128 parse_hex (const char *s) {
 static int parse_opnd (const char *s, opnd_t *o) {
   memset (o, 0, sizeof (*o));
   o->kind = s[0];
-  if (s[0] == '-' || ((s[0] == 'r' || s[0] == 'x' || s[0] == 'y') && s[1] == 0)) return 1;
+  if (s[0] == '-' || ((s[0] == 'r' || s[0] == 'x' || s[0] == 'y' || s[0] == 'X') && s[1] == 0)) return 1;
   if (s[0] == 'r' || s[0] == 'i' || s[0] == 'u') {
     if (s[1] != ':') return 0;
     o->val = parse_hex (s + 2);
@@ -108,6 +110,7 @@ static int parse_case (char *line, case_t *c) {
   int pos = 0;
   memset (c, 0, sizeof (*c));
   c->prime = -1;
+  c->pmask = ~(uint64_t) 0;
   int n = sscanf (line, "%39s %23s %3s %199s %199s %199s%n", c->id, c->opname, c->kinds, dst, x, y, &pos);
   if (n < 6) return 0;
   if (!parse_opnd (dst, &c->dst) || !parse_opnd (x, &c->x) || !parse_opnd (y, &c->y)) return 0;
@@ -116,6 +119,8 @@ static int parse_case (char *line, case_t *c) {
     else if (strncmp (tok, "pre=", 4) == 0) strncpy (c->pre, tok + 4, 11);
     else if (strncmp (tok, "post=", 5) == 0) strncpy (c->post, tok + 5, 11);
     else if (strncmp (tok, "prime=", 6) == 0) c->prime = atoi (tok + 6);
+    else if (strncmp (tok, "press=", 6) == 0) c->press = atoi (tok + 6);
+    else if (strncmp (tok, "pmask=", 6) == 0) c->pmask = (uint64_t) parse_hex (tok + 6);
     else return 0;
   }
   return 1;
@@ -252,10 +257,37 @@ static MIR_item_t build_case (MIR_context_t ctx, case_t *c, const char *name) {
     } else {
       dst_mem_p = 1;
     }
-    ops[0] = dst_mem_p ? mem_operand (&b, &c->dst, 2) : MIR_new_reg_op (ctx, rr);
+    if (c->dst.kind == 'X') { /* in place: the destination is the memory operand x itself (op m, m, y) */
+      if (c->x.kind != 'm') {
+        snprintf (err_msg, sizeof (err_msg), "dst X needs a memory operand x");
+        longjmp (err_jmp, 1);
+      }
+      ops[0] = ops[1];
+    } else
+      ops[0] = dst_mem_p ? mem_operand (&b, &c->dst, 2) : MIR_new_reg_op (ctx, rr);
   }
   int nsrc = c->y.kind == '-' ? 1 : 2;
   MIR_reg_t flag = new_reg (&b, MIR_T_I64, "flag");
+  /* register pressure: the instruction is also applied (in place when the destination is x) to x+1 .. x+npress,
+     all of which are computed first; so many values live at once force spills, and the spilled ones make the
+     generator use the memory forms of the instruction's patterns.  A hash of the results (defined bits pmask)
+     goes to block + 232. */
+  MIR_reg_t qx[32], qr[32];
+  int npress = c->press > 32 ? 32 : c->press;
+  if (npress > 0 && (branch_p || dst_mem_p || c->x.kind != 'r' || rk != 'i' || xk != 'i' || c->pre[0] != 0 || c->post[0] != 0))
+    npress = 0;
+  for (int i = 0; i < npress; i++) {
+    qx[i] = new_reg (&b, MIR_T_I64, "qx");
+    app (&b, MIR_new_insn (ctx, MIR_ADD, MIR_new_reg_op (ctx, qx[i]), MIR_new_reg_op (ctx, xr), MIR_new_int_op (ctx, i + 1)));
+  }
+  for (int i = 0; i < npress; i++) {
+    MIR_op_t qops[3];
+    qr[i] = c->dst.kind == 'x' ? qx[i] : new_reg (&b, MIR_T_I64, "qr");
+    qops[0] = MIR_new_reg_op (ctx, qr[i]);
+    qops[1] = MIR_new_reg_op (ctx, qx[i]);
+    qops[2] = ops[2];
+    app (&b, MIR_new_insn_arr (ctx, code, 1 + nsrc, qops));
+  }
   if (c->prime >= 0) { /* leave known overflow flags behind: s = prime&1, u = prime>>1 */
     MIR_reg_t t1 = new_reg (&b, MIR_T_I64, "pr"), t2 = new_reg (&b, MIR_T_I64, "pr");
     app (&b, MIR_new_insn (ctx, MIR_MOV, MIR_new_reg_op (ctx, t1), blk (&b, MIR_T_I64, 80)));
@@ -299,6 +331,16 @@ static MIR_item_t build_case (MIR_context_t ctx, case_t *c, const char *name) {
         rr = r2;
       }
     }
+  }
+  if (npress > 0) { /* acc = acc * 31 + (r_i & pmask) */
+    MIR_reg_t acc = new_reg (&b, MIR_T_I64, "acc"), t = new_reg (&b, MIR_T_I64, "t");
+    app (&b, MIR_new_insn (ctx, MIR_MOV, MIR_new_reg_op (ctx, acc), MIR_new_int_op (ctx, 0)));
+    for (int i = 0; i < npress; i++) {
+      app (&b, MIR_new_insn (ctx, MIR_AND, MIR_new_reg_op (ctx, t), MIR_new_reg_op (ctx, qr[i]), MIR_new_uint_op (ctx, c->pmask)));
+      app (&b, MIR_new_insn (ctx, MIR_MUL, MIR_new_reg_op (ctx, acc), MIR_new_reg_op (ctx, acc), MIR_new_int_op (ctx, 31)));
+      app (&b, MIR_new_insn (ctx, MIR_ADD, MIR_new_reg_op (ctx, acc), MIR_new_reg_op (ctx, acc), MIR_new_reg_op (ctx, t)));
+    }
+    app (&b, MIR_new_insn (ctx, MIR_MOV, blk (&b, MIR_T_I64, 232), MIR_new_reg_op (ctx, acc)));
   }
   if (!branch_p && !dst_mem_p)
     app (&b, MIR_new_insn (ctx, kind_mov (rk), blk (&b, kind_type (rk), 96), MIR_new_reg_op (ctx, rr)));
@@ -480,6 +522,10 @@ static int run_mode (void) {
     if (e > 0) {
       MIR_gen_init (ctxs[e]);
       MIR_gen_set_optimize_level (ctxs[e], e - 1);
+      if (getenv ("C02_GEN_DEBUG") != NULL) { /* diagnosis only: the generator's own dump on stderr */
+        MIR_gen_set_debug_file (ctxs[e], stderr);
+        MIR_gen_set_debug_level (ctxs[e], atoi (getenv ("C02_GEN_DEBUG")));
+      }
     }
   }
   while (fgets (line, sizeof (line), stdin) != NULL) {
